@@ -110,6 +110,74 @@ type impTr struct {
 	loopCtx []string // enclosing loop variables (parameters of nested loop defs)
 	usedNames map[string]bool
 	fields2D  map[string][2]int // local 2-D arrays: rows, columns
+	pure      map[types.Object]bool // single-assignment scalar locals used only in the loop body that declares them: Lean `let`s
+}
+
+// findPure: a local declared by `x := e` with a scalar type, never assigned again, and used only inside the same innermost loop
+// body as its declaration becomes a Lean `let` (its Go scope is the enclosing block, so it cannot be read later).
+func (t *impTr) findPure(body *ast.BlockStmt) {
+	t.pure = map[types.Object]bool{}
+	declLoop := map[types.Object]ast.Node{}
+	bad := map[types.Object]bool{}
+	var stack []ast.Node
+	inner := func() ast.Node {
+		for i := len(stack) - 1; i >= 0; i-- {
+			if _, ok := stack[i].(*ast.ForStmt); ok {
+				return stack[i]
+			}
+		}
+		return nil
+	}
+	var walk func(n ast.Node) bool
+	walk = func(n ast.Node) bool {
+		if n == nil {
+			stack = stack[:len(stack)-1]
+			return true
+		}
+		switch x := n.(type) {
+		case *ast.AssignStmt:
+			for _, l := range x.Lhs {
+				id, ok := l.(*ast.Ident)
+				if !ok {
+					continue
+				}
+				if x.Tok == token.DEFINE {
+					if obj := t.h.info.Defs[id]; obj != nil {
+						k, _ := kindOf(obj.Type())
+						if (k == "float" || k == "int") && len(x.Lhs) == 1 {
+							declLoop[obj] = inner()
+						} else {
+							bad[obj] = true
+						}
+						continue
+					}
+				}
+				if obj := t.h.info.Uses[id]; obj != nil {
+					bad[obj] = true // assigned again
+				}
+			}
+		case *ast.IncDecStmt:
+			if id, ok := x.X.(*ast.Ident); ok {
+				if obj := t.h.info.Uses[id]; obj != nil {
+					bad[obj] = true
+				}
+			}
+		case *ast.Ident:
+			if obj := t.h.info.Uses[x]; obj != nil {
+				if dl, ok := declLoop[obj]; ok && dl != inner() {
+					bad[obj] = true // used inside a nested loop (a separate Lean definition)
+				}
+			}
+		}
+		stack = append(stack, n)
+		return true
+	}
+	ast.Inspect(body, walk)
+	for obj := range declLoop {
+		if !bad[obj] {
+			t.pure[obj] = true
+		}
+	}
 }
 
 // src prints a node as Go source (for comments and messages)
@@ -197,7 +265,10 @@ func (t *impTr) loc(e ast.Expr) (field string, idx string, kind string) {
 		if obj == nil {
 			t.fail("%s: unresolved identifier %s", t.pos(x), x.Name)
 		}
-		if t.loopVar[obj] {
+		if t.loopVar[obj] || t.pure[obj] {
+			if _, ok := t.objName[obj]; !ok {
+				t.fail("%s: %s used before its declaration", t.pos(x), x.Name)
+			}
 			return "", t.objName[obj], "loopvar"
 		}
 		if name, ok := t.objName[obj]; ok {
@@ -803,6 +874,19 @@ func (t *impTr) stmt(b *strings.Builder, s ast.Stmt, ind string) {
 			if !ok {
 				t.fail("%s: := to %s", t.pos(x), exprString(x.Lhs[0]))
 			}
+			if obj := t.h.info.Defs[id]; obj != nil && t.pure[obj] {
+				base := "v_" + id.Name
+				name := base
+				for i := 2; t.usedNames[name]; i++ {
+					name = fmt.Sprintf("%s_%d", base, i)
+				}
+				t.usedNames[name] = true
+				k, _ := kindOf(obj.Type())
+				val := t.expr(x.Rhs[0])
+				t.objName[obj] = name
+				fmt.Fprintf(b, "%slet %s : %s := %s\n", ind, name, leanType(k), val)
+				return
+			}
 			ty := t.h.info.Types[x.Rhs[0]].Type
 			if obj := t.h.info.Defs[id]; obj != nil {
 				ty = obj.Type()
@@ -1075,6 +1159,7 @@ func translateImp(h *hermesPkg, tg impTarget) (res impResult) {
 			t.field(name, k, "param", n.Name, 0)
 		}
 	}
+	t.findPure(fd.Body)
 	var body strings.Builder
 	t.seq(&body, fd.Body.List, "  ")
 	if t.hasBrk {
